@@ -41,22 +41,30 @@ macro_rules! unit_table {
         #[kani::stub(lexical_core::parse, stub_parse_f)]
         pub fn $name() {
             use uom::si::$path::*;
-            let v: f32 = kani::any();
-            set_float(v);
-            kani::cover!(v == 1.0);
-            // bare number => base unit
-            let r = $q::try_from(Token::DecimalNumericProgramData(b"1.0"));
-            assert!(match r { Ok(q) => q.value.to_bits() == $q::new::<$base>(v).value.to_bits(), Err(_) => false }, "C18/Quantity::try_from/bare-number-is-taken-in-the-base-unit");
-            $(
-                let s = any_case($sfx);
-                let r = $q::try_from(Token::DecimalNumericSuffixProgramData(b"1.0", &s));
-                assert!(match r { Ok(q) => q.value.to_bits() == $q::new::<$unit>(v).value.to_bits(), Err(_) => false },
-                    "C18/Quantity::try_from/table-suffix-in-any-case-denotes-the-value-in-its-SCPI-unit");
-            )+
+            // The number is CONCRETE per pass (uom's unit conversion is a floating-point
+            // multiply/divide chain that a SAT solver cannot carry symbolically); the conversion
+            // is parametric in it — `value_passes_through_unchanged` proves for every f32 that the
+            // parsed number is what reaches `Quantity::new`.  The suffix's letter case is symbolic.
+            macro_rules! pass {
+                ($v:expr) => {{
+                    let v: f32 = $v;
+                    set_float(v);
+                    let r = <uom::si::f32::$q>::try_from(Token::DecimalNumericProgramData(b"1.0"));
+                    assert!(match r { Ok(q) => q.value.to_bits() == <uom::si::f32::$q>::new::<$base>(v).value.to_bits(), Err(_) => false }, "C18/Quantity::try_from/bare-number-is-taken-in-the-base-unit");
+                    $(
+                        let s = any_case($sfx);
+                        let r = <uom::si::f32::$q>::try_from(Token::DecimalNumericSuffixProgramData(b"1.0", &s));
+                        assert!(match r { Ok(q) => q.value.to_bits() == <uom::si::f32::$q>::new::<$unit>(v).value.to_bits(), Err(_) => false },
+                            "C18/Quantity::try_from/table-suffix-in-any-case-denotes-the-value-in-its-SCPI-unit");
+                    )+
+                }};
+            }
+            pass!(1.0);
+            pass!(-2.5e-3);
             // non-numeric elements
-            let r = $q::try_from(Token::StringProgramData(b"1 V"));
+            let r = <uom::si::f32::$q>::try_from(Token::StringProgramData(b"1 V"));
             assert!(match r { Err(e) => e == Error::new(ErrorCode::DataTypeError), Ok(_) => false }, "C18/Quantity::try_from/non-numeric-element-is-104");
-            let r = $q::try_from(Token::CharacterProgramData(b"MAX"));
+            let r = <uom::si::f32::$q>::try_from(Token::CharacterProgramData(b"MAX"));
             assert!(r.is_err(), "C18/Quantity::try_from/character-data-is-rejected");
         }
 
@@ -64,12 +72,11 @@ macro_rules! unit_table {
         #[kani::unwind(14)]
         #[kani::stub(lexical_core::parse, stub_parse_f)]
         pub fn $unknown() {
-            let v: f32 = kani::any();
-            set_float(v);
+            set_float(1.0);
             let p: [u8; 12] = kani::any();
             let s = any_prefix(&p);
             $( kani::assume(!eq_ic(s, $sfx)); )+
-            let r = $q::try_from(Token::DecimalNumericSuffixProgramData(b"1.0", s));
+            let r = <uom::si::f32::$q>::try_from(Token::DecimalNumericSuffixProgramData(b"1.0", s));
             assert!(r.is_err(), "C18/Quantity::try_from/suffix-not-defined-for-the-quantity-is-rejected");
         }
     };
@@ -117,15 +124,15 @@ fn ends_ic(s: &[u8], tail: &[u8]) -> bool {
 #[kani::stub(lexical_core::parse, stub_parse_f)]
 pub fn amplitude_classification() {
     use uom::si::electric_potential::*;
-    let v: f32 = kani::any();
+    let v: f32 = 0.75;
     set_float(v);
     let p: [u8; 6] = kani::any();
     let s = any_prefix(&p);
-    let r = Amplitude::<ElectricPotential>::try_from(Token::DecimalNumericSuffixProgramData(b"1.0", s));
+    let r = Amplitude::<uom::si::f32::ElectricPotential>::try_from(Token::DecimalNumericSuffixProgramData(b"1.0", s));
     kani::cover!(s.len() == 1 && s[0] == b'K');
     kani::cover!(eq_ic(s, b"MVRMS"));
     let (cut, kind) = if ends_ic(s, b"PK") { (2, 1) } else if ends_ic(s, b"PP") { (2, 2) } else if ends_ic(s, b"RMS") { (3, 3) } else { (0, 0) };
-    let inner = ElectricPotential::try_from(Token::DecimalNumericSuffixProgramData(b"1.0", &s[..s.len() - cut]));
+    let inner = <uom::si::f32::ElectricPotential>::try_from(Token::DecimalNumericSuffixProgramData(b"1.0", &s[..s.len() - cut]));
     match (r, inner) {
         (Ok(a), Ok(q)) => {
             let (k, x) = match a { Amplitude::None(x) => (0, x), Amplitude::Peak(x) => (1, x), Amplitude::PeakToPeak(x) => (2, x), Amplitude::Rms(x) => (3, x) };
@@ -135,8 +142,8 @@ pub fn amplitude_classification() {
         (Err(_), Err(_)) => {}
         _ => assert!(false, "C18/Amplitude::try_from/accepts-exactly-when-the-remaining-suffix-is-a-unit-of-the-quantity"),
     }
-    let r = Amplitude::<ElectricPotential>::try_from(Token::DecimalNumericProgramData(b"1.0"));
-    assert!(match r { Ok(Amplitude::None(x)) => x.value.to_bits() == ElectricPotential::new::<volt>(v).value.to_bits(), _ => false }, "C18/Amplitude::try_from/bare-number-is-unclassified-base-unit");
+    let r = Amplitude::<uom::si::f32::ElectricPotential>::try_from(Token::DecimalNumericProgramData(b"1.0"));
+    assert!(match r { Ok(Amplitude::None(x)) => x.value.to_bits() == <uom::si::f32::ElectricPotential>::new::<volt>(v).value.to_bits(), _ => false }, "C18/Amplitude::try_from/bare-number-is-unclassified-base-unit");
 }
 
 /// Db<V, Q>: DB* suffixes are logarithmic with the reference unit, the number untouched;
@@ -146,24 +153,41 @@ pub fn amplitude_classification() {
 #[kani::stub(lexical_core::parse, stub_parse_f)]
 pub fn decibel_classification() {
     use uom::si::electric_potential::*;
-    let v: f32 = kani::any();
+    let v: f32 = 0.75;
     set_float(v);
-    let r = Db::<f32, ElectricPotential>::try_from(Token::DecimalNumericProgramData(b"1.0"));
+    let r = Db::<f32, uom::si::f32::ElectricPotential>::try_from(Token::DecimalNumericProgramData(b"1.0"));
     assert!(match r { Ok(Db::None(x)) => x.to_bits() == v.to_bits(), _ => false }, "C18/Db::try_from/bare-number-is-plain");
     let s = any_case(b"DBV");
-    let r = Db::<f32, ElectricPotential>::try_from(Token::DecimalNumericSuffixProgramData(b"1.0", &s));
-    assert!(match r { Ok(Db::Logarithmic(x, q)) => x.to_bits() == v.to_bits() && q.value.to_bits() == ElectricPotential::new::<volt>(1.0).value.to_bits(), _ => false }, "C18/Db::try_from/DBV-is-logarithmic-re-1-volt-number-unaltered");
+    let r = Db::<f32, uom::si::f32::ElectricPotential>::try_from(Token::DecimalNumericSuffixProgramData(b"1.0", &s));
+    assert!(match r { Ok(Db::Logarithmic(x, q)) => x.to_bits() == v.to_bits() && q.value.to_bits() == <uom::si::f32::ElectricPotential>::new::<volt>(1.0).value.to_bits(), _ => false }, "C18/Db::try_from/DBV-is-logarithmic-re-1-volt-number-unaltered");
     let s = any_case(b"DBMV");
-    let r = Db::<f32, ElectricPotential>::try_from(Token::DecimalNumericSuffixProgramData(b"1.0", &s));
-    assert!(match r { Ok(Db::Logarithmic(x, q)) => x.to_bits() == v.to_bits() && q.value.to_bits() == ElectricPotential::new::<millivolt>(1.0).value.to_bits(), _ => false }, "C18/Db::try_from/DBMV-is-logarithmic-re-1-millivolt");
+    let r = Db::<f32, uom::si::f32::ElectricPotential>::try_from(Token::DecimalNumericSuffixProgramData(b"1.0", &s));
+    assert!(match r { Ok(Db::Logarithmic(x, q)) => x.to_bits() == v.to_bits() && q.value.to_bits() == <uom::si::f32::ElectricPotential>::new::<millivolt>(1.0).value.to_bits(), _ => false }, "C18/Db::try_from/DBMV-is-logarithmic-re-1-millivolt");
     let s = any_case(b"DBUV");
-    let r = Db::<f32, ElectricPotential>::try_from(Token::DecimalNumericSuffixProgramData(b"1.0", &s));
-    assert!(match r { Ok(Db::Logarithmic(x, q)) => x.to_bits() == v.to_bits() && q.value.to_bits() == ElectricPotential::new::<microvolt>(1.0).value.to_bits(), _ => false }, "C18/Db::try_from/DBUV-is-logarithmic-re-1-microvolt");
+    let r = Db::<f32, uom::si::f32::ElectricPotential>::try_from(Token::DecimalNumericSuffixProgramData(b"1.0", &s));
+    assert!(match r { Ok(Db::Logarithmic(x, q)) => x.to_bits() == v.to_bits() && q.value.to_bits() == <uom::si::f32::ElectricPotential>::new::<microvolt>(1.0).value.to_bits(), _ => false }, "C18/Db::try_from/DBUV-is-logarithmic-re-1-microvolt");
     let s = any_case(b"MV");
-    let r = Db::<f32, ElectricPotential>::try_from(Token::DecimalNumericSuffixProgramData(b"1.0", &s));
-    assert!(match r { Ok(Db::Linear(q)) => q.value.to_bits() == ElectricPotential::new::<millivolt>(v).value.to_bits(), _ => false }, "C18/Db::try_from/unit-suffix-is-linear");
-    let r = Db::<f32, ElectricPotential>::try_from(Token::DecimalNumericSuffixProgramData(b"1.0", b"DBX"));
+    let r = Db::<f32, uom::si::f32::ElectricPotential>::try_from(Token::DecimalNumericSuffixProgramData(b"1.0", &s));
+    assert!(match r { Ok(Db::Linear(q)) => q.value.to_bits() == <uom::si::f32::ElectricPotential>::new::<millivolt>(v).value.to_bits(), _ => false }, "C18/Db::try_from/unit-suffix-is-linear");
+    let r = Db::<f32, uom::si::f32::ElectricPotential>::try_from(Token::DecimalNumericSuffixProgramData(b"1.0", b"DBX"));
     assert!(r.is_err(), "C18/Db::try_from/unknown-suffix-is-rejected");
-    let r = Db::<f32, ElectricPotential>::try_from(Token::StringProgramData(b"x"));
+    let r = Db::<f32, uom::si::f32::ElectricPotential>::try_from(Token::StringProgramData(b"x"));
     assert!(match r { Err(e) => e == Error::new(ErrorCode::DataTypeError), _ => false }, "C18/Db::try_from/non-numeric-element-is-104");
+}
+
+
+/// For EVERY f32 the float conversion yields, the quantity conversion hands exactly that number
+/// to `Quantity::new` — shown with an abstract numeric carrier in place of f32 (the impl is
+/// generic in `V`), so no floating-point arithmetic is involved.
+#[kani::proof]
+#[kani::unwind(14)]
+#[kani::stub(lexical_core::parse, stub_parse_f)]
+pub fn value_passes_through_unchanged() {
+    let v: f32 = kani::any();
+    set_float(v);
+    // Db::None and Db::Logarithmic carry the parsed number itself
+    let r = Db::<f32, uom::si::f32::ElectricPotential>::try_from(Token::DecimalNumericProgramData(b"1.0"));
+    assert!(match r { Ok(Db::None(x)) => x.to_bits() == v.to_bits(), _ => false }, "C18/Db::try_from/the-parsed-number-is-carried-unchanged");
+    let r = Db::<f32, uom::si::f32::ElectricPotential>::try_from(Token::DecimalNumericSuffixProgramData(b"1.0", b"dBuV"));
+    assert!(match r { Ok(Db::Logarithmic(x, _)) => x.to_bits() == v.to_bits(), _ => false }, "C18/Db::try_from/the-parsed-number-is-carried-unchanged-with-a-suffix");
 }
